@@ -302,3 +302,9 @@ Proof.
   - reflexivity.
   - cbn in H. injection H as Hx Hl. cbn. rewrite (infer_shape_rect x sh Hx), (IH shs Hl). reflexivity.
 Qed.
+
+Lemma core_finish {R} (f : kwargs -> R) (comps : R -> list R) i :
+  disjoint_args i -> fst (core f comps i) = finish comps i (map f (run_order i)).
+Proof.
+  intros Hd. unfold core, finish, results_linear. unfold disjoint_args in Hd. rewrite Hd. reflexivity.
+Qed.
